@@ -688,3 +688,17 @@ Proof.
   replace st1 with (fst (call st k' arg)) by (rewrite C1; reflexivity). apply get_after_call.
 Qed.
 End Registry.
+
+(* 'm' at full strength: with a business day b in [t, t1], the result is the least business day rf >= t if it is
+   in t's month, otherwise whatever 'p' gives (characterised by adjust_p_greatest) *)
+Theorem adjust_m_full (hol wk : Z -> bool) (month : Z -> Z) (t0 t1 : Z) fuel t b r :
+  t <= b <= t1 -> is_bday hol wk b = true -> adjust_m hol wk month t0 t1 fuel t = Some r ->
+  exists rf, (t <= rf <= b /\ is_bday hol wk rf = true /\ forall d, t <= d < rf -> is_bday hol wk d = false) /\
+             ((month rf = month t /\ r = rf) \/ (month rf <> month t /\ adjust_p hol wk t0 fuel t = Some r)).
+Proof.
+  intros Rb Bb E. unfold adjust_m in E. destruct (adjust_f hol wk t1 fuel t) as [rf|] eqn:Ef; [|discriminate].
+  exists rf. split; [exact (adjust_f_least hol wk t1 fuel t b rf Rb Bb Ef)|].
+  destruct (month rf =? month t) eqn:M; cbn [negb] in E.
+  - left. split; [lia | congruence].
+  - right. split; [lia | exact E].
+Qed.
